@@ -6,6 +6,11 @@ from mirsym.vj import Concretizer, norm_native
 from mirsym.engine import conc_value
 
 
+def json_dumps(j):
+    import json
+    return json.dumps(j)
+
+
 def sym_input(t):
     """template -> list of byte items (ints and fresh symbolic bytes) + the list of symbolic variables"""
     data = []; syms = []
@@ -85,6 +90,10 @@ def compare(s):
     if e != o: return 'mirsym: %s, native: %s %s' % (e, o, str(n)[:200])
     if e == 'ok' and 'value' in s:
         nv = norm_native(n['ok'])
+        if s.get('hayson'):
+            # NaN payload / float text are outside the tree-level model: compare modulo number bits when a NaN is involved
+            if 'ff8' in json_dumps(nv) or 'ff8' in json_dumps(s['value']):
+                if strip_bits(nv) == strip_bits(s['value']): return None
         if s.get('zone_axiom'):
             nv = strip_dt(nv); sv = strip_dt(s['value'])
             if nv == sv: return None
